@@ -1211,12 +1211,33 @@ func HEVCGenWeights(t *rapid.T, n int, curr []bool, chroma bool, budget *int, ha
 	return ws
 }
 
+// HEVCSliceOpts steers the slice segment header generator; the zero value is the draw sequence of HEVCGenSlice.
+type HEVCSliceOpts struct {
+	// PBBias: P and B slices about as often as I slices. Without it two thirds of the independent slice segments
+	// end as I: an IRAP NAL unit type (31 %) forces slice_type 2, so does an empty reference picture set
+	// (NumPicTotalCurr 0), and 22 % are drawn as I anyway. With it the NAL unit type is a non-IRAP one in 88 %
+	// of the draws, a reference picture set coded in the header without a used picture gets one used picture in
+	// 90 % (instead of 60 %) of the draws, short_term_ref_pic_set_idx prefers (90 %) a set of the SPS with a used
+	// picture, and slice_type is drawn as P/B in 94 % (instead of 78 %); HEVCGenSliceSetOpt prefers (95 %) an
+	// active PPS whose SPS has sps_max_dec_pic_buffering_minus1 > 0.
+	PBBias bool
+}
+
 // HEVCGenSlice draws a slice segment value tree for the active parameter sets.
 func HEVCGenSlice(t *rapid.T, spsT *nalgen.HEVCSPSTree, ppsT *nalgen.HEVCPPSTree) nalgen.HEVCSliceTree {
+	return HEVCGenSliceOpt(t, spsT, ppsT, HEVCSliceOpts{})
+}
+
+// HEVCGenSliceOpt is HEVCGenSlice with options.
+func HEVCGenSliceOpt(t *rapid.T, spsT *nalgen.HEVCSPSTree, ppsT *nalgen.HEVCPPSTree, o HEVCSliceOpts) nalgen.HEVCSliceTree {
 	sps, pps := &spsT.SPS, &ppsT.PPS
 	var tr nalgen.HEVCSliceTree
 	sh, x := &tr.SH, &tr.Extra
-	if HEVCPct(t, 72, "ntvcl") {
+	pctVcl, pctWantRef, pctPB := 72, 60, 78
+	if o.PBBias {
+		pctVcl, pctWantRef, pctPB = 88, 90, 94
+	}
+	if HEVCPct(t, pctVcl, "ntvcl") {
 		tr.NalType = HEVCSliceNalTypes[HEVCUni(t, 10, "nt")] // TRAIL_N .. RASL_R
 	} else {
 		tr.NalType = HEVCSliceNalTypes[10+HEVCUni(t, 6, "nt")] // BLA_W_LP .. CRA_NUT
@@ -1278,12 +1299,21 @@ func HEVCGenSlice(t *rapid.T, spsT *nalgen.HEVCSPSTree, ppsT *nalgen.HEVCPPSTree
 				if num > 1 {
 					idx = int(HEVCInt(t, 0, int64(num-1), "rpsidx"))
 				}
+				if o.PBBias && vars[idx].NumUsed() == 0 && HEVCPct(t, 90, "rpsidxused") {
+					// prefer a candidate set of the SPS that has a picture used by the current picture
+					for k := 1; k < num; k++ {
+						if j := (idx + k) % num; vars[j].NumUsed() > 0 {
+							idx = j
+							break
+						}
+					}
+				}
 				sh.ShortTermRefPicSetIdx = byte(idx)
 				cur = vars[idx]
 				activeInter = spsT.StRPS[idx].InterRPSPred
 			} else {
 				c, v := HEVCGenRPS(t, num, num, vars, maxDpb, "hr")
-				if !c.InterRPSPred && v.NumUsed() == 0 && v.NumDeltaPocs() < maxDpb && HEVCPct(t, 60, "wantref") {
+				if !c.InterRPSPred && v.NumUsed() == 0 && v.NumDeltaPocs() < maxDpb && HEVCPct(t, pctWantRef, "wantref") {
 					// make P/B slices possible more often: one more (used) negative picture
 					c.DeltaPocS0Minus1 = append(c.DeltaPocS0Minus1, HEVCDrawDeltaMinus1(t, "hrd0"))
 					c.UsedByCurrPicS0 = append(c.UsedByCurrPicS0, true)
@@ -1341,7 +1371,7 @@ func HEVCGenSlice(t *rapid.T, spsT *nalgen.HEVCSPSTree, ppsT *nalgen.HEVCPPSTree
 			nptc++
 		}
 		st := 2
-		if HEVCPct(t, 78, "pb") {
+		if HEVCPct(t, pctPB, "pb") {
 			st = HEVCUni(t, 2, "type")
 		}
 		if irap && !currPicRef {
@@ -1595,6 +1625,11 @@ func HEVCGenPPSSet(rt *rapid.T) (spss []nalgen.HEVCSPSTree, pps *nalgen.HEVCPPST
 // HEVCGenSliceSet draws the parameter sets (2..3 SPS, 2..4 PPS, ids crossing) and a slice segment header that
 // uses ppss[usePPS], which refers to spss[useSPS].
 func HEVCGenSliceSet(rt *rapid.T) (spss []nalgen.HEVCSPSTree, ppss []nalgen.HEVCPPSTree, slice nalgen.HEVCSliceTree, useSPS, usePPS int) {
+	return HEVCGenSliceSetOpt(rt, HEVCSliceOpts{})
+}
+
+// HEVCGenSliceSetOpt is HEVCGenSliceSet with options for the slice segment header (the parameter sets are drawn alike).
+func HEVCGenSliceSetOpt(rt *rapid.T, o HEVCSliceOpts) (spss []nalgen.HEVCSPSTree, ppss []nalgen.HEVCPPSTree, slice nalgen.HEVCSliceTree, useSPS, usePPS int) {
 	nSPS := rapid.IntRange(2, 3).Draw(rt, "nsps")
 	spss = HEVCGenSPSSet(rt, nSPS, 8192)
 	nPPS := rapid.IntRange(2, 4).Draw(rt, "npps")
@@ -1629,8 +1664,24 @@ func HEVCGenSliceSet(rt *rapid.T) (spss []nalgen.HEVCSPSTree, ppss []nalgen.HEVC
 		ppss = append(ppss, *pps)
 	}
 	act := rapid.IntRange(0, nPPS-1).Draw(rt, "act")
+	if o.PBBias {
+		// an SPS with sps_max_dec_pic_buffering_minus1 = 0 allows no reference picture at all (every slice is I):
+		// prefer (95 %) a PPS whose SPS has room for one
+		dpb := func(i int) byte {
+			oi := spss[refs[i]].SPS.SubLayeringOrderingInfos
+			return oi[len(oi)-1].MaxDecPicBufferingMinus1
+		}
+		if dpb(act) == 0 && HEVCPct(rt, 95, "actdpb") {
+			for k := 1; k < nPPS; k++ {
+				if j := (act + k) % nPPS; dpb(j) > 0 {
+					act = j
+					break
+				}
+			}
+		}
+	}
 	spsT, ppsT := &spss[refs[act]], &ppss[act]
-	slice = HEVCGenSlice(rt, spsT, ppsT)
+	slice = HEVCGenSliceOpt(rt, spsT, ppsT, o)
 	if HEVCAvoid("hevc-slice-deblocking-disabled-inferred") {
 		sh, p := &slice.SH, &ppsT.PPS
 		if !sh.DependentSliceSegmentFlag && p.LoopFilterAcrossSlicesEnabledFlag && p.DeblockingFilterDisabledFlag &&
@@ -1660,4 +1711,56 @@ func HEVCGenConfSets(rt *rapid.T) (vps *nalgen.HEVCVPSTree, sps *nalgen.HEVCSPST
 		ppss = append(ppss, *HEVCGenPPS(rt, sps, ids[i], fmt.Sprintf("p%d", i)))
 	}
 	return vps, sps, ppss
+}
+
+// HEVCGenConfSetsMulti draws the inputs of a HEVCDecoderConfigurationRecord with several parameter sets of a kind:
+// 1..2 VPS, 1..2 SPS (the first one from the full generator) and 1..3 PPS, each referring to one of the SPSs.
+// The second SPS has another sps_seq_parameter_set_id and other general_* profile_tier_level fields
+// (general_level_idc always differs); it is either a copy of the first SPS in everything else (one coded picture
+// format in the record, as ISO/IEC 14496-15 8.3.3.1.3 demands for chroma format and bit depths) or an independent
+// lean SPS. With two VPSs the second one has another vps_video_parameter_set_id and belongs to the second SPS if
+// there is one.
+func HEVCGenConfSetsMulti(rt *rapid.T) (vpss []nalgen.HEVCVPSTree, spss []nalgen.HEVCSPSTree, ppss []nalgen.HEVCPPSTree) {
+	sps := HEVCGenSPS(rt, HEVCSPSOpts{ID: -1, Log2Poc: -1, SAO: -1, MaxDim: 16888}, "")
+	vpss = append(vpss, *HEVCGenVPS(rt, &sps.SPS, "v"))
+	spss = append(spss, *sps)
+	twoSPS := HEVCPct(rt, 50, "sps2?")
+	twoVPS := HEVCPct(rt, 40, "vps2?")
+	vpsID2 := (sps.SPS.VpsID + 1 + byte(HEVCUni(rt, 15, "vps2id"))) % 16
+	if twoSPS {
+		var s2 nalgen.HEVCSPSTree
+		id2 := (int(sps.SPS.SpsID) + 1 + HEVCUni(rt, 15, "sps2id")) % 16
+		if HEVCPct(rt, 50, "sps2copy") {
+			s2 = *sps // the slices inside are shared and never written to
+			s2.SPS.SpsID = byte(id2)
+			ptl := HEVCGenPTL(rt, 0, "s2ptl")
+			ptl.SubLayers = sps.SPS.ProfileTierLevel.SubLayers
+			s2.SPS.ProfileTierLevel = ptl
+		} else {
+			s2 = *HEVCGenSPS(rt, HEVCSPSOpts{ID: id2, Lean: true, Log2Poc: -1, SAO: -1, MaxDim: 16888}, "s2")
+		}
+		if s2.SPS.ProfileTierLevel.GeneralLevelIDC == sps.SPS.ProfileTierLevel.GeneralLevelIDC {
+			s2.SPS.ProfileTierLevel.GeneralLevelIDC += 3
+		}
+		s2.SPS.VpsID = sps.SPS.VpsID
+		if twoVPS {
+			s2.SPS.VpsID = vpsID2
+		}
+		spss = append(spss, s2)
+	}
+	if twoVPS {
+		v2 := HEVCGenVPS(rt, &spss[len(spss)-1].SPS, "w")
+		v2.VpsID = vpsID2
+		vpss = append(vpss, *v2)
+	}
+	n := rapid.IntRange(1, 3).Draw(rt, "npps")
+	ids := HEVCDistinct(rt, n, 63, "ppsid")
+	for i := 0; i < n; i++ {
+		ref := 0
+		if twoSPS {
+			ref = HEVCUni(rt, 2, "ppsref")
+		}
+		ppss = append(ppss, *HEVCGenPPS(rt, &spss[ref], ids[i], fmt.Sprintf("p%d", i)))
+	}
+	return vpss, spss, ppss
 }
